@@ -150,13 +150,13 @@ def run(res, tier, seed, shard, nshards):
                 for a in range(1, n):
                     k += 1
                     if (k + ji) % nshards == shard:
-                        one(res, W, st, call, [a], None, None, (name, "nonblocking-1"), pauses=True)
+                        one(res, W, st, call, [a], None, None, (name, "nonblocking-1" + ("-tls" if k % 2 else "")), pauses=True, tls=bool(k % 2))
                 for a, b in itertools.combinations(range(1, n), 2):
                     k += 1
                     if tier == "quick" and k % 4:
                         continue
                     if (k + ji) % nshards == shard:
-                        one(res, W, st, call, [a, b], None, None, (name, "nonblocking-2"), pauses=True)
+                        one(res, W, st, call, [a, b], None, None, (name, "nonblocking-2" + ("-tls" if k % 3 == 0 else "")), pauses=True, tls=(k % 3 == 0))
             elif job[0] == "hdr-timeouts":
                 # byte-wise delivery of the first 16 bytes (header, extended length, mask key, first payload bytes), the
                 # rest in one piece; a timeout (multiplicity 1-2) before every one of those bytes, and pairs of positions
@@ -189,7 +189,7 @@ def run(res, tier, seed, shard, nshards):
                         if mode == "timeout":
                             one(res, W, st, call, places, {pi: 1}, None, (name, "payload-timeout"))
                         elif mode == "nonblocking":
-                            one(res, W, st, call, places[max(0, pi - 2):pi], None, None, (name, "payload-nonblocking"), pauses=True)
+                            one(res, W, st, call, places[max(0, pi - 2):pi], None, None, (name, "payload-nonblocking" + ("-tls" if pi % 2 else "")), pauses=True, tls=bool(pi % 2))
                         else:
                             one(res, W, st, call, places, None, None, (name, "payload-eagain"), eagain=(pi, "then-gap"))
             elif job[0] == "eagain":
@@ -248,7 +248,7 @@ def run(res, tier, seed, shard, nshards):
 _pred_cache = {}
 
 
-def one(res, W, stream, call, cuts, tplan, head_cuts, tag, eagain=None, pauses=False):
+def one(res, W, stream, call, cuts, tplan, head_cuts, tag, eagain=None, pauses=False, tls=False):
     name, cf = call
     key = (stream, call)
     if key not in _pred_cache:
@@ -281,17 +281,19 @@ def one(res, W, stream, call, cuts, tplan, head_cuts, tag, eagain=None, pauses=F
         res.count("segmentations_run")
     else:
         res.count("head_cut_runs")
-    obs = H.run_recv_script(stream, script, segs=segs, ending="eof", head_cuts=head_cuts, timeout=5, nonblocking=pauses)
+    obs = H.run_recv_script(stream, script, segs=segs, ending="eof", head_cuts=head_cuts, timeout=5, nonblocking=pauses, tls=tls)
+    if tls:
+        res.count("runs_on_tls_transport")
     if pauses:
         res.count("nonblocking_runs")
         res.count("wouldblocks_observed", obs["wouldblocks"])
     issues, judged, unj = M.compare(pred, obs)
-    res.case((stream, call, tuple(cuts or ()), tuple(sorted((tplan or {}).items())), tuple(head_cuts or ()), eagain, pauses),
+    res.case((stream, call, tuple(cuts or ()), tuple(sorted((tplan or {}).items())), tuple(head_cuts or ()), eagain, pauses, tls),
              nontrivial=bool(cuts or tplan or head_cuts))
     res.count("timeouts_injected", ntimeouts)
     res.count("timeouts_observed", obs["timeouts"])
     res.count("kind:" + tag[1])
-    case = {"tag": tag, "stream": stream, "call": call, "cuts": cuts, "timeout_plan": tplan, "head_cuts": head_cuts, "eagain": eagain}
+    case = {"tag": tag, "stream": stream, "call": call, "cuts": cuts, "timeout_plan": tplan, "head_cuts": head_cuts, "eagain": eagain, "tls": tls}
     for kind, detail, fields in issues:
         res.violation("segmentation-dependent:" + kind, f"{tag}: {detail}", case, seg_kind=tag[1], **fields)
     if ntimeouts != obs["timeouts"] and not issues:
